@@ -44,7 +44,7 @@ import re
 from ..cfg import CFG
 from ..core import (AnalysisError, call_name, const_str, find_calls, kwarg,
                     last_attr, names_in, short, txt, walk)
-from ..lib_C11 import (ClassModel, Func, Interp, ModelRaise, Namespace,
+from ..lib_C11 import (NP, ClassModel, Func, Interp, ModelRaise, Namespace,
                        NdArray)
 
 ASSUMPTIONS = [
@@ -197,7 +197,9 @@ class Model:
 
         def np_sum(a):
             return getattr(a, "n_true", a)
-        g["np"] = Namespace("np", all=np_all, arange=np_arange, sum=np_sum)
+        g["np"] = Namespace("np", all=np_all, arange=np_arange, sum=np_sum,
+                            diff=NP.diff, array=NP.array,
+                            asarray=NP.asarray)
         g["dfn"] = Namespace(
             "dfn", config_keys=self.cfgkeys,
             feature_exists=lambda f: f in KNOWN_FEATURES,
@@ -460,6 +462,13 @@ def r131(ctx, repo, model, pattern, sets):
     seeded("unknown feature", "check_features_unknown_hdf5",
            "unknown feature", m, has("bogus_feat"),
            "HDF5 feature 'bogus_feat' unknown to dclab")
+    # names that are pieces of an ignored name are still unknown features
+    for nm in ("d", "f", "de", "ef", "deformation_x"):
+        def m(ds, nm=nm):
+            ds.h5file["events"][nm] = H5Dataset((N,), ds.h5file.file)
+        seeded("unknown feature", "check_features_unknown_hdf5",
+               f"unknown feature '{nm}'", m, has(f"'{nm}'"),
+               f"HDF5 feature '{nm}' unknown to dclab")
     clean("unknown feature", "check_features_unknown_hdf5")
 
     # 4 missing mandatory metadata
@@ -518,7 +527,10 @@ def r131(ctx, repo, model, pattern, sets):
     for label, data in (("index starts at 0", list(range(N))),
                         ("index repeats", [1, 2, 2, 4, 5][:N]),
                         ("index reversed", list(range(N, 0, -1))),
-                        ("last index wrong", list(range(1, N)) + [N + 2])):
+                        ("last index wrong", list(range(1, N)) + [N + 2]),
+                        ("index with an offset", list(range(3, N + 3))),
+                        ("index counts in steps of two",
+                         list(range(1, 2 * N, 2)))):
         def m(ds, data=data):
             ds.feats["index"] = NdArray.of(data, "int")
         seeded("index", "check_feat_index", label, m, has("index"),
@@ -1628,4 +1640,59 @@ TWINS = list(TWINS) + [
       '        return sorted(self.warn_cues + cues)\n\n'
       '    def _run_one(self, func, **kwargs):\n'
       '        return func(self, **kwargs)\n')),
+]
+
+# round-2 seeded changes
+MUTANTS = list(MUTANTS) + [
+    ("index only checked for consecutive values (np.diff)", CHK,
+     ('            if not np.all(self.ds["index"] == np.arange(1, lends + 1)):',
+      '            if not np.all(np.diff(self.ds["index"]) == 1):'), "R13.1"),
+    ("index only checked for its first value", CHK,
+     ('            if not np.all(self.ds["index"] == np.arange(1, lends + 1)):',
+      '            if not self.ds["index"][0] == 1:'), "R13.1"),
+    ("ignore list of unknown features became a plain string", CHK,
+     ('        ignore_unknown_features = [\n'
+      '            "def",  # An old Shape-In version stored "def" instead of '
+      '"deform"\n            ]',
+      '        ignore_unknown_features = (\n'
+      '            "def"  # An old Shape-In version stored "def"\n'
+      '        )'), "R13.1"),
+    ("unknown features ignored by prefix", CHK,
+     ("                    if feat in ignore_unknown_features:",
+      "                    if feat.startswith(tuple(ignore_unknown_features"
+      ")):"), "R13.1"),
+    ("roi size derived from image / image_bg only", WR,
+     ('        if "image" in feats:\n'
+      '            shape = self.h5file["events"]["image"][0].shape\n'
+      '        elif "mask" in feats:\n'
+      '            shape = self.h5file["events"]["mask"][0].shape\n'
+      '        else:\n            shape = None\n',
+      '        for imfeat in ["image", "image_bg"]:\n'
+      '            if imfeat in feats:\n'
+      '                shape = self.h5file["events"][imfeat][0].shape\n'
+      '                break\n'
+      '        else:\n            shape = None\n'), "R13.3"),
+]
+TWINS = list(TWINS) + [
+    ("ignore list of unknown features as a tuple", CHK,
+     ('        ignore_unknown_features = [\n'
+      '            "def",  # An old Shape-In version stored "def" instead of '
+      '"deform"\n            ]',
+      '        ignore_unknown_features = (\n'
+      '            "def",  # An old Shape-In version stored "def"\n'
+      '        )')),
+    ("index compared element-wise after a difference", CHK,
+     ('            if not np.all(self.ds["index"] == np.arange(1, lends + 1)):',
+      '            if not np.all(self.ds["index"] - np.arange(lends) == 1):')),
+    ("roi size via a loop over image and mask", WR,
+     ('        if "image" in feats:\n'
+      '            shape = self.h5file["events"]["image"][0].shape\n'
+      '        elif "mask" in feats:\n'
+      '            shape = self.h5file["events"]["mask"][0].shape\n'
+      '        else:\n            shape = None\n',
+      '        for imfeat in ["image", "mask"]:\n'
+      '            if imfeat in feats:\n'
+      '                shape = self.h5file["events"][imfeat][0].shape\n'
+      '                break\n'
+      '        else:\n            shape = None\n')),
 ]
